@@ -217,6 +217,12 @@ def array_ufunc(ufunc, method, inputs, kwargs):
                     return nplike.asarray(x)
 
             result = getattr(ufunc, method)(*[tonumpy(x) for x in inputs], **kwargs)
+            if isinstance(result, tuple):
+                # ufuncs with more than one output (divmod, modf, frexp)
+                return lambda: tuple(
+                    ak.operations.convert.from_numpy(x, highlevel=False)
+                    for x in result
+                )
             return lambda: (ak.operations.convert.from_numpy(result, highlevel=False),)
 
         for x in inputs:
@@ -263,8 +269,11 @@ def array_ufunc(ufunc, method, inputs, kwargs):
     out = ak._util.broadcast_and_apply(
         inputs, getfunction, behavior, allow_records=False, pass_depth=False
     )
-    assert isinstance(out, tuple) and len(out) == 1
-    return ak._util.wrap(out[0], behavior)
+    assert isinstance(out, tuple) and len(out) >= 1
+    if len(out) == 1:
+        return ak._util.wrap(out[0], behavior)
+    else:
+        return tuple(ak._util.wrap(x, behavior) for x in out)
 
 
 def matmul_for_numba(lefts, rights, dtype):
